@@ -414,9 +414,9 @@ pub fn run_all(ctx: &mut Ctx, replay: Option<&Path>) {
     }
     ctx.regressions(&b);
     ctx.regressions(&a);
-    ctx.random(&b, (pops_strategy(), any::<bool>()).prop_map(|(pops, direct)| BestCase { pops, direct }), ctx.tier.pick(20_000, 200_000));
-    ctx.random(&a, (0usize..8, pops_strategy(), proptest::collection::vec((0u16..8, obj_strategy()), 0..6)).prop_map(|(k, pops, target)| ArchiveCase { k, pops, target }), ctx.tier.pick(20_000, 200_000));
-    let per = ctx.tier.pick(150, 1500);
+    ctx.random(&b, (pops_strategy(), any::<bool>()).prop_map(|(pops, direct)| BestCase { pops, direct }), ctx.tier.pick(60_000, 300_000));
+    ctx.random(&a, (0usize..8, pops_strategy(), proptest::collection::vec((0u16..8, obj_strategy()), 0..6)).prop_map(|(k, pops, target)| ArchiveCase { k, pops, target }), ctx.tier.pick(60_000, 300_000));
+    let per = ctx.tier.pick(400, 2000);
     for k in 0..21 {
         let r = RunCheck(k);
         ctx.regressions(&r);
